@@ -404,7 +404,7 @@ func genWire(t *rapid.T, protos []string, maxN int) (wireCase, bool) {
 	s := group[rapid.IntRange(0, len(group)-1).Draw(t, "slot")]
 	kind := rapid.SampledFrom([]string{"value", "value", "value", "copy-other-recipient", "copy-other-sender", "substitute-other-recipient", "substitute-other-round"}).Draw(t, "kind")
 	c.Tamper = adv.Tamper{Round: s.Round, Broadcast: s.Broadcast, To: s.To, Path: s.Path, Kind: kind, Variant: rapid.IntRange(0, 5).Draw(t, "variant")}
-	if s.Round >= 3 && (kind == "value" || kind == "copy-other-sender") {
+	if (s.Round >= 3 || strings.HasPrefix(p, "doerner")) && (kind == "value" || kind == "copy-other-sender") {
 		// the altered message may also arrive ahead of its round (it is then queued and verified when the round is reached)
 		c.Tamper.Early = rapid.IntRange(0, 3).Draw(t, "early") == 0
 	}
